@@ -445,6 +445,15 @@ def run_impl(c):
             other = [math.radians(a) for a in c["angles"]] if c["deg"] else [math.degrees(a) for a in c["angles"]]
             r2 = euler(other, c["order"], "rad" if c["deg"] else "deg")
             o["other_units"] = np.asarray(r2, dtype=np.float64).reshape(-1).tolist()
+            if not c["scalar"]:
+                # the array call form (np.asarray does not copy a float64 array): same angles twice through one array
+                arr = np.array(c["angles"], dtype=np.float64)
+                keep = arr.copy()
+                ra = euler(arr, c["order"], units)
+                rb = euler(arr, c["order"], units)
+                o["array_form"] = np.asarray(ra, dtype=np.float64).reshape(-1).tolist()
+                o["array_form_again"] = np.asarray(rb, dtype=np.float64).reshape(-1).tolist()
+                o["args_unchanged"] = bool(np.array_equal(keep, arr))
             return o
         if kind.startswith("up_look"):
             up, look = np.array(c["up"]), np.array(c["look"])
@@ -673,6 +682,11 @@ def oracle(c, o):
         big = max([1.0] + [abs(a) for a in c["angles"]])
         if any(abs(a - b) > 1e-9 * big for a, b in zip(o["m"], o["other_units"])):
             return "euler: degrees and radians disagree"
+        if "array_form" in o:
+            if not o["args_unchanged"]:
+                return "euler modified the angle array it was given"
+            if o["array_form"] != o["m"] or o["array_form_again"] != o["m"]:
+                return "euler: a float64 angle array gives a different matrix than the same angles as a list (or on a second call)"
         return None
     if kind in ("up_look_zero",):
         return None if (raised and o["raise"] == "ValueError") else "zero-length up/look not rejected with ValueError"
